@@ -272,3 +272,49 @@ CASES += [FeatureBed(n, c) for n in (1, 2, 3) for c in (False, True)]
 CASES += [FeatureBed(2, False, overlap=True), FeatureBed(3, False, overlap=True)]
 CASES += [TranscriptBed(n, c, k) for n in (1, 2, 3) for c in (False, True) for k in (False, True)]
 CASES += [TranscriptBed(1, "stranded", True), TranscriptBed(2, "stranded", True), TranscriptBed(2, "stranded", False)]
+
+
+class FromLocationBed(Case):
+    """An interval obtained through the alternative constructor from_location(<location>) (2-3 blocks, either strand)
+    is the interval of those blocks: exon lists ascending as given, start / end, and its BED12 record satisfies the
+    format invariants and decodes to the blocks."""
+    props = ("C14", "C06", "C19")
+
+    def __init__(self, kind, n):
+        self.kind, self.n = kind, n
+        cls = {"transcript": TRANSCRIPT, "feature": FEATURE}[kind]
+        self.cls = cls
+        self.func = cls + ".from_location"
+        cname = cls.split(".")[-1]
+        self.name = f"{cname}.from_location[{n} blocks, either strand]: exon lists, bounds and BED12"
+        self.call = (f"(lambda t: (t._genomic_starts, t._genomic_ends, t.start, t.end, t.to_bed12(), t.strand))"
+                     f"({cname}.from_location(loc))")
+        self.ensures = {
+            "exon-lists-ascending-as-given": lambda i, r: And(
+                len(r[0]) == n, *[And(r[0][k] == i.starts[k], r[1][k] == i.ends[k]) for k in range(n)]),
+            "bounds": lambda i, r: And(r[2] == i.starts[0], r[3] == i.ends[-1]),
+            "bed12-format-invariants": lambda i, r: bed_invariants(r[4]),
+            "bed12-decodes-to-the-blocks": lambda i, r: And(
+                len(decoded_blocks(r[4])) == n,
+                *[And(a[0] == s, a[1] == e) for a, s, e in zip(decoded_blocks(r[4]), i.starts, i.ends)]),
+            "strand": lambda i, r: And(_same_enum(r[5], i.strand), _same_enum(r[4].strand, i.strand)),
+        }
+
+    def inputs(self, S):
+        starts, ends = block_lists(S, "x", self.n, allow_adjacent=False)
+        strand = strand_of(S, "strand")
+        loc = S.new(COMPOUND, starts, ends, strand)
+        return NS(loc=loc, starts=starts, ends=ends, strand=strand, TranscriptInterval=S.cls(TRANSCRIPT),
+                  FeatureInterval=S.cls(FEATURE))
+
+    def samples(self, rng):
+        d = sample_blocks(rng, "x", self.n, lo=1, gap=(1, 3))
+        d["strand"] = rng.choice(["PLUS", "MINUS"])
+        return d
+
+    def observe(self, r):
+        from pyvc.check import default_observe as o
+        return [list(map(o, r[0])), list(map(o, r[1])), o(r[2]), o(r[3])]
+
+
+CASES += [FromLocationBed(k, n) for k in ("transcript", "feature") for n in (2, 3)]
